@@ -17,6 +17,81 @@ from axilib import (AxiFabric, WidthMismatch, _build_ports, _classes, _SpecBus, 
 from explore import impl_step
 
 
+F_SAT = "C08-request-counter-saturation"
+SAT_AT = 256          # accepted and unanswered requests of one direction that an 8-bit lock counter no longer counts
+
+
+class SatAwareMonitor(X.AxiMonitor):
+    """AxiMonitor that classifies histories inside the region of the open finding C08-request-counter-saturation: once
+    some lock counter of the fabric has been asked to hold >= 256 unanswered requests of one direction (shared /
+    arbiter / decoder: the bus total; crossbar: one slave's queue or one master's queue — exactly the quantities the
+    counters count), everything AFTER that cycle belongs to the finding and is not judged.  The cycle of the 256th
+    acceptance itself and every history below 256 are judged in full: any other mis-delivery stays a fresh violation."""
+
+    def __init__(self, inst, hyp=True):
+        super().__init__(inst, hyp=hyp)
+        self.saturated = None
+
+    def _deepest(self):
+        best = 0
+        for d in (0, 1):
+            if self.kind == "xbar":
+                best = max([best] + [len(q) for q in self.fifo[d]] + [len(q) for q in self.mq[d]])
+            else:
+                best = max(best, sum(len(q) for q in self.fifo[d]))
+        return best
+
+    def observe(self, letter, outs):
+        if self.saturated is not None:
+            return None
+        msg = super().observe(letter, outs)
+        if self._deepest() >= SAT_AT:
+            self.saturated = "%d unanswered requests of one direction on one lock counter (%s)" % (self._deepest(), F_SAT)
+        return msg
+
+
+def arm(inst):
+    """Give the instance the saturation-aware monitor (instance attribute shadows AxiFabric.monitor)."""
+    inst.monitor = lambda: (SatAwareMonitor(inst) if inst.monitored else X.NullMonitor())
+    return inst
+
+
+def saturation_witness(full=False, xbar=False):
+    """(instance, trace) of the 2x1 witness: master 0 gets 256 read addresses accepted, 255 are answered, master 1 asks,
+    the 256th response arrives with both masters ready."""
+    import wblib
+    mk = make_xbar if xbar else make_shared
+    inst = mk(2, [wblib.DecAll()], full=full, data_width=32, address_width=32)
+    idle = m_part()
+    tr = [tuple(m_part(ar=(4 * k & 0xffff, 2)) + idle + s_part(ar_ready=1)) for k in range(256)]
+    tr += [tuple(m_part(r_ready=1) + idle + s_part(r=(1, k & 0xff))) for k in range(255)]
+    tr += [tuple(idle + m_part(ar=(0x40, 2)) + s_part())]
+    tr += [tuple(m_part(r_ready=1) + m_part(ar=(0x40, 2), r_ready=1) + s_part(r=(1, 0x99)))]
+    return inst, tr
+
+
+def probe_saturation():
+    """Replay the witness on the real netlist (compiled evaluator).  still_fails = the 256th response is shown to
+    master 1 and not to master 0 (its issuer).  Also reported: what the plain monitor says, and that the saturation-aware
+    monitor classifies the tail of the run under the finding (stays silent)."""
+    res = []
+    for full, xbar in ((False, False), (True, True)):
+        inst, tr = saturation_witness(full, xbar)
+        plain, aware = X.AxiMonitor(inst), SatAwareMonitor(inst)
+        pmsg = amsg = None
+        outs = None
+        for l in tr:
+            outs = impl_step(inst, l)
+            pmsg = pmsg or plain.observe(l, outs)
+            amsg = amsg or aware.observe(l, outs)
+        _, to_m = X.split_outs(outs, 2, 1)
+        fails = bool(to_m[1][X.RV]) and not to_m[0][X.RV]
+        res.append((fails, "%s%s 2x1: 256th R delivered to master %s; plain monitor: %s; saturation-aware monitor: %s" % (
+            _tag(full), "Crossbar" if xbar else "Shared", "1, not to its issuer 0" if fails else "0 (issuer)",
+            pmsg or "silent", amsg or ("silent (classified: %s)" % aware.saturated))))
+    return res
+
+
 def soc_words(n, regions, interconnect, full, data_width, address_width, timeout):
     t = "none" if timeout is None else str(int(timeout))
     return "%d %s %s %d %d %d %s" % (int(full), interconnect, t, n, data_width, address_width,
@@ -70,6 +145,7 @@ def make_soc_axi(n, regions, interconnect="shared", full=False, data_width=32, a
     inst = AxiFabric(name, kind, h, masters, slaves, decs, lean_open, full=full, data_width=data_width,
                      address_width=address_width, bus=_SpecBus(data_width, address_width), **kw)
     inst.timeout = "none" if timeout is None else int(timeout)
+    arm(inst)
     inst.soc_spec = {"kind": "soc", "n": n, "regions": [list(r) for r in regions], "interconnect": interconnect, "full": full,
                      "data_width": data_width, "address_width": address_width,
                      "timeout": None if timeout is None else int(timeout)}
@@ -109,7 +185,7 @@ def soc_directed_cases(ctx):
         root = nl.snapshot()
         for a in sorted(addrs):
             nl.restore(root)
-            mon = AxiMonitor(inst)
+            mon = SatAwareMonitor(inst)
             letter = m_part(aw=(a, 1), ar=(a, 1))
             for _ in range(n - 1):
                 letter += m_part()
